@@ -11,6 +11,21 @@ import sys
 
 VERIF = os.path.dirname(os.path.dirname(os.path.dirname(os.path.abspath(__file__))))
 
+TARGETS_EXTRA = {
+    'C02': "prophy/descriptor.py decode_* functions, prophy/container.py `_decode_impl` of every array kind, prophy/composite.py struct / union `_decode_impl` (the arm switch), prophy/generators.py `container_len` (shift, guard), `decode(terminal=...)` return values",
+    'C05': "prophy_cpp/include/prophy/detail/encoder.hpp (optional, limited arrays, dynamic structs in arrays), byte_size.hpp / the generated get_byte_size and encode text of prophyc/generators/cpp_full.py for limited and externally sized arrays, padding after dynamic members",
+    'C07': "prophy_cpp/include/prophy/detail/decoder.hpp (`do_decode_resize`, `heap_value`, greedy decoders, `do_decode_align`, optional decoder, union decoder bounds), the generated decode text of prophyc/generators/cpp_full.py",
+    'C09': "prophyc/generators/cpp.py `_CppSwapTranslator` (parts, `get_missing`, delimiters, limited arrays, optional, union swap text), prophy_cpp/include/prophy/prophy.hpp swap overloads and `swap_n_fixed` / `swap_n_dynamic`",
+    'C11': "prophy/composite_base.py `copy_from` / `validate_copy_from`, prophy/composite.py `struct.set_field` / `union._copy_implementation`, prophy/container.py `extend` / `add` (field names only) / slice assignment of composite arrays",
+    'C15': "prophyc/model.py `topological_sort`, `dependencies()` of every node kind (constants, enumerators, array sizes, discriminators, typedef chains), Include nodes in the sorted list, prophyc/parsers/isar.py order of parsed nodes",
+    'C17': "prophyc/parsers/isar.py `make_struct_members` (dimension forms, `factor`, `expand_operators`, isVariableSize by value), prophyc/patch.py actions (`static` clears bound and greedy, `limited`, `insert` index clamp, duplicate check after patching)",
+    'C18': "prophy/composite.py `field_to_string` / str() (bytes escaping, enumerators by name, optional, union), prophy_cpp/include/prophy/detail/printer.hpp and message.hpp (`print` in the classic locale), prophyc/generators/cpp_full.py enum printing (shared values: last name)",
+    'C06+': "prophy/composite_base.py `as_bytes` (what decode reads), prophy/composite.py union `_decode_impl`, prophy/generators.py `container_len` decode guard",
+    'C12+': "prophyc/generators/base.py `check_cpp_names` (CPP_RUNTIME_NAMES for namespace-scope names, CPP_MEMBER_NAMES for members, the `generated` pattern for types and members, `discriminator_`), prophyc/model.py `unwritable` (UNWRITABLE_TEXT, PASTED_TEXT_DEPTH / LENGTH) and `check_size_text`",
+    'C16+': "prophyc/file_processor.py `_identity` (device and inode), `names` / `name_of` (SameNameError, TwoNamesError), `_same_includes`, `heights`",
+    'C20+': "prophyc/generators/base.py `write_files` (encode everything, open every file, then write) and `render`, prophyc/__init__.py `generate_target_files`, prophyc/file_processor.py `_identity` / `inodes` cache",
+}
+
 TARGETS = {
     'C01': "prophy/generators.py (add_padding, partial alignment, limit_to_sizer_range, build_container_length_field), prophy/composite.py struct.encode / _bytes, prophy/container.py encoders",
     'C03': "prophy_cpp/include/prophy/detail/encoder.hpp / decoder.hpp (heap_value, do_decode_resize, greedy decoder, memcpy based scalar access), prophyc/generators/cpp_full.py (encode / decode / byte size text of limited and externally sized arrays)",
@@ -73,7 +88,8 @@ def main():
         p = props[i]
         wt = os.path.join(rd, i)
         text = TEXT.format(wt=wt, pid=i, title=p['title'], statement=p['statement'], quant=p['quantifier']['text'],
-                           target=TARGETS.get(i, 'anywhere the property reaches'), tried='\n'.join(tried.get(i, ['  (none)'])))
+                           target=TARGETS_EXTRA.get(i + '+' if os.environ.get('SEED_PLUS') else i, TARGETS_EXTRA.get(i, TARGETS.get(i, 'anywhere the property reaches'))),
+                           tried='\n'.join(tried.get(i, ['  (none)'])))
         open(os.path.join(rd, 'prompts', i + '.txt'), 'w').write(text)
         print(i, len(tried.get(i, [])), 'earlier mechanisms')
 
